@@ -392,10 +392,11 @@ type OracleC12 struct {
 	t         *DisputeTracker
 	prevVoter map[string]disputetypes.Voter
 	teamAt    map[uint64]string // dispute id -> team address when the dispute was first seen
+	voterRep  map[string]string // "<dispute>|<voter>" -> the reporter the voter had selected at the end of the block it voted in
 }
 
 func NewOracleC12(t *DisputeTracker) *OracleC12 {
-	return &OracleC12{counters: newCounters(), t: t, prevVoter: map[string]disputetypes.Voter{}, teamAt: map[uint64]string{}}
+	return &OracleC12{counters: newCounters(), t: t, prevVoter: map[string]disputetypes.Voter{}, teamAt: map[uint64]string{}, voterRep: map[string]string{}}
 }
 
 // teamRotatedOntoVoter: the input-level condition of the open finding "team-address-changed-after-its-vote" — the
@@ -493,6 +494,16 @@ func (o *OracleC12) AfterBlock(c *Chain, b *BlockCtx) []*Violation {
 		curVoter[fmt.Sprintf("%d|%s", vr.ID, string(vr.Voter))] = vr.Rec
 	}
 	defer func() { o.prevVoter = curVoter }()
+	for _, vr := range v.Voters() {
+		k := fmt.Sprintf("%d|%s", vr.ID, string(vr.Voter))
+		if _, seen := o.voterRep[k]; !seen {
+			rep := ""
+			if sel, err := b.Ref.App.ReporterKeeper.Selectors.Get(v.ctx, vr.Voter); err == nil {
+				rep = string(sel.Reporter)
+			}
+			o.voterRep[k] = rep
+		}
+	}
 	team := v.TeamAddr()
 	for i, tr := range b.Txs {
 		in := c.IntentOfTx(b, i)
@@ -602,11 +613,16 @@ func (o *OracleC12) AfterBlock(c *Chain, b *BlockCtx) []*Violation {
 		// never exceeds the stake recorded for that reporter as of the dispute's block
 		byRep := map[string]*big.Int{}
 		for _, vr := range byDispute[id] {
-			sel, err := b.Ref.App.ReporterKeeper.Selectors.Get(v.ctx, vr.Voter)
-			if err != nil {
+			// grouped by the reporter the voter had selected when it voted (its selection may have been removed and
+			// re-made with another reporter since)
+			k := o.voterRep[fmt.Sprintf("%d|%s", vr.ID, string(vr.Voter))]
+			if k == "" {
 				continue
 			}
-			k := string(sel.Reporter)
+			if sel, err := b.Ref.App.ReporterKeeper.Selectors.Get(v.ctx, vr.Voter); err != nil || string(sel.Reporter) != k {
+				o.count("voters_whose_selection_changed_since_voting(skipped)")
+				continue
+			}
 			if byRep[k] == nil {
 				byRep[k] = new(big.Int)
 			}
@@ -615,6 +631,12 @@ func (o *OracleC12) AfterBlock(c *Chain, b *BlockCtx) []*Violation {
 		for rep, cast := range byRep {
 			tot, err := b.Ref.App.ReporterKeeper.GetReporterTokensAtBlock(v.ctx, []byte(rep), d.D.BlockNumber)
 			if err != nil || tot.IsNil() {
+				continue
+			}
+			if tot.IsZero() {
+				// the reporter had no recorded stake at the dispute's block (it did not exist yet, or its voters joined it
+				// later): the voters' weights stem from another reporter's stake and cannot be compared with this one
+				o.count("reporter_groups_without_stake_at_dispute_block(skipped)")
 				continue
 			}
 			o.count("reporter_groups_checked")
